@@ -1,6 +1,8 @@
-CONSTANTS Carriers = {"xds"} Vals = {"a", "b", "u"} WssWords = {} MaxRecv = 8 UnknownOnce = TRUE XdsGuard = TRUE Calls = {"a", "b"}
+CONSTANTS Carriers = {"xds"} Vals = {"a", "b", "u"} Labels = {} Times = {} Bads = {}
+  WssWords = {} MaxRecv = 8 UnknownOnce = TRUE XdsGuard = TRUE Calls = {"a", "b"}
+  Handlers = {"h1", "h2"} InitMasks = {{"NETWORK", "NETWORK_ID", "PROG_ID", "LOCAL_TIME", "ASPECT", "TTX_PAGE", "CAPTION"}, {"NETWORK_ID", "TTX_PAGE"}} RegMasks = {{"CAPTION"}, {"NETWORK"}} Apis = {"reg"} MaxReg = 1
 SPECIFICATION Spec
 CONSTRAINT Bounded
 INVARIANTS TypeOK Faithful XdsSettles
-PROPERTIES OnlyAfterRepeat NetworkMeansChange OneNetworkEvent CacheKept CacheDropped
+PROPERTIES OfThisReception OnlyAfterRepeat VpsLabelTwice NetworkMeansChange OneNetworkEvent NotAgainWhileSame StationKept CacheKept CacheDropped Gated WssOnlyAfterRepeats AspectRevertOnlyOnChange
 CHECK_DEADLOCK FALSE
